@@ -38,7 +38,14 @@ func Open(v *vrt.Ctx, ctx context.Context, which int) db.Db {
 		f.Connect(ctx, v.TempDir())
 		return f
 	}
-	return postgres.NewPgDb().WithConnection(pgfake.New())
+	p, _ := OpenPg()
+	return p
+}
+
+// OpenPg: a Postgres store over a new fake server, and the server.
+func OpenPg() (db.Db, *pgfake.Server) {
+	srv := pgfake.New()
+	return postgres.NewPgDb().WithConnection(srv), srv
 }
 
 // Key draws a well-formed key of 1..maxlen bytes: the documented symbol
@@ -349,7 +356,8 @@ func DumpFs(v *vrt.Ctx) {
 	if typ == db.DATATYPE_USERDATA {
 		mine = "s1"
 		if v.Bool("other-session-has-data") {
-			put("s2", "", ka, "X")
+			// a session that sorts before the listing one, or after it
+			put([]string{"s0", "s2"}[v.Choice("other-session", 2)], "", ka, "X")
 		}
 	}
 	hasA, hasB := v.Bool("key-a-stored"), v.Bool("key-b-stored")
